@@ -52,10 +52,11 @@ type WorldCfg struct {
 	SharedKeys   bool // allow two trip ids that map to one journal key
 	ClockFaults  int  // out of 16 per tick
 	ShuffleEnts  bool
-	LongLines    bool // lines of up to 45 stops (slice growth inside the journal)
-	DateVariety  bool // trips start on different service days
-	LateNight    bool // some trips start at or after 24:00:00 of their service day
-	RepeatDaily  bool // the same trip id (and time of day) runs on two different service days, as NYCT ids do
+	LongLines    bool  // lines of up to 45 stops (slice growth inside the journal)
+	DateVariety  bool  // trips start on different service days
+	LateNight    bool  // some trips start at or after 24:00:00 of their service day
+	EpochShift   int64 // the world's clock starts this many seconds after Epoch (2038 rollover, far future)
+	RepeatDaily  bool  // the same trip id (and time of day) runs on two different service days, as NYCT ids do
 }
 
 func DrawWorldCfg(t *sim.T) WorldCfg {
@@ -86,6 +87,10 @@ func DrawWorldCfg(t *sim.T) WorldCfg {
 	c.DateVariety = t.Chance(1, 4)
 	c.RepeatDaily = t.Chance(1, 6)
 	c.LateNight = t.Chance(1, 6)
+	if t.Chance(1, 12) {
+		// around 2^31 seconds (19 January 2038), beyond 2^32, and early 1970
+		c.EpochShift = []int64{1<<31 - Epoch - 200, 1<<32 - Epoch - 100, 5_000_000_000 - Epoch, 1000 - Epoch}[t.Choose(4)]
+	}
 	return c
 }
 
@@ -130,7 +135,7 @@ type World struct {
 var routePool = []string{"L", "M", "1", "A", "J", "GS"}
 
 func NewWorld(t *sim.T, cfg WorldCfg) *World {
-	w := &World{t: t, Cfg: cfg, Now: Epoch, lines: map[string][]string{}}
+	w := &World{t: t, Cfg: cfg, Now: Epoch + cfg.EpochShift, lines: map[string][]string{}}
 	w.pubNow = w.Now
 	off := t.Choose(len(routePool))
 	for i := 0; i < cfg.Routes; i++ {
@@ -164,7 +169,7 @@ func (w *World) startDate() string {
 	}
 	// service days whose start instants have 9, 10 and 11 decimal digits as Unix seconds (and one before 1970),
 	// so that orderings of trip UIDs as strings and as numbers disagree
-	return []string{"20240114", "20240115", "20240116", "20231231", "19991231", "20010908", "20010909", "22870101", "19691231", "19700101"}[w.t.Weighted(3, 3, 3, 2, 1, 1, 1, 1, 1, 1)]
+	return []string{"20240114", "20240115", "20240116", "20231231", "19991231", "20010908", "20010909", "22870101", "19691231", "19700101", "20240229", "20230229", "20380119", "20380120"}[w.t.Weighted(3, 3, 3, 2, 1, 1, 1, 1, 1, 1, 1, 1, 1, 1)]
 }
 
 func pad1(r string) string {
@@ -185,6 +190,9 @@ func (w *World) newTrain(i int) *train {
 	hm := 60000 + 50*i + t.Choose(40)
 	if w.Cfg.LateNight && t.Chance(1, 2) {
 		hm = 144000 + 50*i + t.Choose(5000) // 24:00:00 .. 24:50:00+ of the service day
+		if t.Chance(1, 3) {
+			hm = []int{0, 1, 143999, 144000, 144001, 239999, 999999}[t.Choose(7)] // exact boundaries: 00:00:00, 23:59:59, 24:00:00, ...
+		}
 		t.Probe("world-start-after-24h")
 	}
 	path := []string{"", "01R", "X", "02"}[t.Choose(4)]
